@@ -88,12 +88,13 @@ theorem opOK_split {f : OpF} (h : opOK f = true) :
     (gasChargesMem f.gasFn || f.memFn == .none) = true ∧
     (f.halts || f.reverts || gasTables.all (fun gt => decide (1 ≤ gasFloor gt f))) = true ∧
     (((execKind f.execFn).isNone && f.execFn != .opCreate) || (!f.halts && !f.reverts)) = true ∧
-    (memFnReads f.memFn ≤ f.pops && gasFnReads f.gasFn ≤ f.pops) = true ∧
+    (f.memReads ≤ f.pops && f.gasReads ≤ f.pops) = true ∧
     (!(execWrites f.execFn || f.execFn == .opCreate || gasTouchesState f.gasFn) || f.writes) = true ∧
-    execReads f ≤ f.pops := by
+    f.execReads ≤ f.pops ∧
+    f.execRanges.all (fun r => (memFnRanges f.memFn).contains r) = true := by
   simp only [opOK, Bool.and_eq_true] at h
-  obtain ⟨⟨⟨⟨⟨⟨⟨h1, h2⟩, h3⟩, h4⟩, h5⟩, h6⟩, h7⟩, h8⟩ := h
-  exact ⟨h1, h2, h3, h4, h5, by simp only [Bool.and_eq_true]; exact h6, h7, by simpa using h8⟩
+  obtain ⟨⟨⟨⟨⟨⟨⟨⟨h1, h2⟩, h3⟩, h4⟩, h5⟩, h6⟩, h7⟩, h8⟩, h9⟩ := h
+  exact ⟨h1, h2, h3, h4, h5, by simp only [Bool.and_eq_true]; exact h6, h7, by simpa using h8, h9⟩
 
 /-- in static context under Byzantium rules an opcode that passed enforceRestrictions does not modify the world -/
 theorem unrestricted_static {env : Env} {fr : Frame} {f : OpF} {i : StepIn W}
@@ -102,7 +103,7 @@ theorem unrestricted_static {env : Env} {fr : Frame} {f : OpF} {i : StepIn W}
     (execKind f.execFn = some .call → valueNZOf f i.args = false) := by
   have hok := opOK_split (lookup_ok hl)
   have hop := (lookup_mem hl).2
-  obtain ⟨h1, _, _, _, _, _, h7, _⟩ := hok
+  obtain ⟨h1, _, _, _, _, _, h7, _, _⟩ := hok
   simp only [restricted, hb, hro, Bool.true_and, Bool.or_eq_false_iff] at hr
   obtain ⟨hw, hcall⟩ := hr
   simp only [hw, Bool.or_false, Bool.not_eq_true', Bool.or_eq_false_iff] at h7
